@@ -387,6 +387,10 @@ class SimulationAlgorithm(BaseSimulationAlgorithm):
             columns=columns,
         ).T
 
+        if model.source_dimension == 0:
+            # no sources: no mixing matrix, hence no space shifts
+            return individual_parameters_from_model_parameters
+
         # Generate the source tensors
         for i in range(model.source_dimension):
             individual_parameters_from_model_parameters[f"sources_{i}"] = torch.tensor(
